@@ -610,6 +610,13 @@ func (ex *Exec) run() {
 	}
 	for _, fv := range ex.fn.FreeVars {
 		ex.vals[fv] = ex.paramVal("fv_"+fv.Name(), fv.Type())
+		if ex.con != nil {
+			for _, p := range ex.con.FreeVars {
+				if pt, ok := fv.Type().Underlying().(*types.Pointer); ok && p.Name == fv.Name() {
+					ex.params[p.Name] = ex.env.loadVal(ex.st, ex.vals[fv], pt.Elem())
+				}
+			}
+		}
 	}
 	if fnCallsRecover(ex.fn) {
 		// a function written to be deferred: what recover() returns is an input (nil: not panicking)
